@@ -54,12 +54,15 @@ func drawLoopReply(rt *rapid.T) *replyPlan {
 	if r.Kind == "exec" {
 		r.Act = drawLoopAction(rt)
 	}
+	if r.Kind == "nil" {
+		r.NilToCompleted = rapid.IntRange(0, 2).Draw(rt, "nil_to_completed") == 0
+	}
 	return r
 }
 
 func TestC08WorkerThreadLoop(t *testing.T) {
 	rec := simkit.NewRecorder(t, "C08", "worker_thread_loop",
-		"the real builder.LaunchWorkerThread loop on synctest bubble time (clock.SystemClock) against the scripted scheduler (a pre-drawn list of replies with latencies: execute/idle/no desired state/RPC error/invalid timestamp, then a scheduler without work) and an autonomous instrumented executor (drawn run time, progress updates incl. > 10, delay after cancellation); the outer context is cancelled a drawn delay after the n-th Synchronize arrived. Oracle: the request and executor oracles of run_model, plus: the routine returns only after shutdown, eventually, and at that instant the scheduler believes the worker idle (last delivered reply left it idle) or the last provided next-sync time was missed by > 1 min; no request received after the cancellation has prefer_being_idle=false. NON-TRIVIAL: the context was cancelled while an Execute was running, or a pre-emption happened; distinct by plan hash")
+		"the real builder.LaunchWorkerThread loop on synctest bubble time (clock.SystemClock) against the scripted scheduler (a pre-drawn list of replies with latencies: execute/idle/no desired state/RPC error/invalid timestamp, then a scheduler without work) and an autonomous instrumented executor (drawn run time, progress updates incl. > 10, delay after cancellation); the outer context is cancelled a drawn delay after the n-th Synchronize arrived. Oracle: the request and executor oracles of run_model, plus: the routine returns only after shutdown, eventually, and at that instant the scheduler believes the worker idle (last delivered reply left it idle) or the last provided next-sync time was missed by > 1 min; no request received after the cancellation has prefer_being_idle=false; freshness/completion: after a valid no-desired-state reply with next-sync in the future to an Executing report, the request that follows at the same bubble instant must report at least what sat in the update channel when the reply was handed out (Completed only if bubble time has advanced since Execute returned); livelock backstop: 3000 Synchronize calls at one bubble instant. NON-TRIVIAL: the context was cancelled while an Execute was running, or a pre-emption happened; distinct by plan hash")
 	rapid.Check(t, func(rt *rapid.T) {
 		plan := &loopPlan{}
 		plan.Replies = rapid.SliceOfN(rapid.Custom(drawLoopReply), 0, 12).Draw(rt, "replies")
@@ -160,6 +163,10 @@ func runLoopCase(plan *loopPlan, delay time.Duration) ([]string, bool) {
 			terminatedEarly = true
 		case <-bound.C:
 			n = plan.ShutdownAfter
+		case <-w.violated:
+			// The fakes recorded a violation (and parked the worker if it was
+			// observed inside Synchronize): report it now.
+			check()
 		}
 	}
 	bound.Stop()
@@ -170,6 +177,8 @@ func runLoopCase(plan *loopPlan, delay time.Duration) ([]string, bool) {
 		case <-g.done:
 			terminatedEarly = true
 			t.Stop()
+		case <-w.violated:
+			check()
 		}
 	}
 	synctest.Wait()
@@ -203,6 +212,8 @@ func runLoopCase(plan *loopPlan, delay time.Duration) ([]string, bool) {
 	select {
 	case <-g.done:
 		limit.Stop()
+	case <-w.violated:
+		check()
 	case <-limit.C:
 		check()
 		fail("the worker routine did not return within 24h (bubble time) of shutdown although the scheduler script is finite and the scheduler then answers every request")
